@@ -173,8 +173,20 @@ def cls_in(cterm, clsq):
     return Or(*[cterm == i for i in ids])
 
 
-def shape(st, term, ty):
+class _NxtView(object):
+    """a state seen with another allocation bound (values read from the untouched pre-state heap were allocated
+    before the function was entered)"""
+    def __init__(self, st, nxt):
+        self._st, self.nxt = st, nxt
+
+    def __getattr__(self, name):
+        return getattr(self._st, name)
+
+
+def shape(st, term, ty, pre=False):
     """depth-1 shape predicate of a value for a static type (E-PARSE / declared object invariants)"""
+    if pre:
+        st = _NxtView(st, z3.Int('next0'))
     if isinstance(ty, Ty.TAny):
         # closed heap: a reference stored anywhere points to an allocated object
         return Implies(is_ref(term), And(va(term) >= 0, va(term) < st.nxt))
